@@ -31,7 +31,8 @@ REQUIRED_MONITORS = ["equals_base_at_translated", "Fq_equals_base_at_translated"
                      "untouched_parameters_preserved", "invalid_placement_refused"]
 REQUIRED_BUCKETS = {"quick": ["tpl:boundary", "tpl:affine", "tpl:power", "tpl:pair", "tpl:ternary", "tpl:chain3", "place:default",
                               "place:start", "place:after-untouched", "place:after-angle", "dim:1d", "dim:2d",
-                              "pd:feeds-intermediate", "validity-boundary-crossed", "lane:asan"]}
+                              "pd:feeds-intermediate", "validity-boundary-crossed", "lane:asan", "new-parameters:untyped",
+                              "new-parameters:untyped-and-no-volume-parameter-left"]}
 REQUIRED_BUCKETS["thorough"] = REQUIRED_BUCKETS["quick"]
 
 BASES = ["sphere", "cylinder", "ellipsoid", "core_shell_sphere", "hollow_cylinder", "barbell", "capped_cylinder",
@@ -202,6 +203,13 @@ def run_case(case, rec):
     rng = core.rng_for(case["seed"], PROP, k)
     pars0 = sas.base_pars(bi, case["seed"]*17 + k)
     tpl, new, st, repl, feeds = build_translation(bi, case["tpl"], rng, pars0)
+    # the new parameters need not be size parameters as far as the table is concerned: every fourth case declares
+    # them with an empty type (then no new parameter can carry dispersity; the base still has a volume)
+    if k % 4 == 3 and tpl != "boundary":
+        new = [n[:4] + [""] + n[5:] for n in new]
+        rec.bucket("new-parameters:untyped")
+        if not any(p.type == "volume" for p in bi.parameters.kernel_parameters if p.name not in repl):
+            rec.bucket("new-parameters:untyped-and-no-volume-parameter-left")
     rec.bucket("tpl:" + tpl, "lane:" + case.get("lane", "plain"))
     text = "\n".join("        %s = %s" % (lhs, C(ast)) for lhs, ast in st)
     untouched = [p for p in bi.parameters.kernel_parameters if p.name not in repl]
